@@ -323,3 +323,80 @@ def run(ctx):
                 bad5 = bad5 or "with the pnl %s the minimum collateral is %s" % ("positive" if decided else "not positive", kind)
         ctx.inst("R05.5", "free-collateral-formula:%s" % short_fn(fc.fn), bad5 is None and n5 > 0 and seen_mc == {"margin", "margin+pnl"}, fc.fn.where(),
                  bad5 or "%d paths: min(margin, margin + pnl) - notional * initial_margin_ratio / decimals" % n5)
+
+    # ---------------------------------------------------------------- R05.6
+    # the margin the free collateral starts from: the stored margin less the funding owed since the position's checkpoint,
+    # floored at zero: max(0, margin - (latest cumulative fraction - checkpoint) * size / decimals)
+    ctx.rule("R05.6", "the position the free collateral is computed on carries margin = max(0, stored margin - (latest cumulative fraction - checkpoint) * size / decimals)", 1)
+    if fc is not None:
+        from .c11 import is_last_of_list
+        g = None
+        for q in fc.ok_paths():
+            for x in sym.walk(ix.inline(sym.unwrap(q.ret))):
+                if tag(x) == "field" and payload(x)[0] == "margin":
+                    b0 = kids(x)[0]
+                    while tag(b0) in ("unwrap", "ok"):
+                        b0 = kids(b0)[0]
+                    if tag(b0) == "call" and ix.call_target(b0) is not None and "Position" in ix.call_target(b0).locals[0]["ty"]:
+                        g = ix.call_target(b0)
+        if g is None:
+            ctx.lost("R05.6", "the function producing the position (with funding) the free collateral is computed on")
+        else:
+            ctx.analysed["functions"].add(g.pretty)
+            bad6 = None
+            seen6 = set()
+
+            def stored_pos_field(v, name):
+                vi = ix.inline(v)
+                return tag(vi) == "field" and payload(vi)[0] == name and guards.loaded_item(ix, kids(vi)[0], ENG) == POS
+
+            def latest_q(v):
+                vi = ix.inline(v)
+                while tag(vi) in ("unwrap", "ok"):
+                    vi = ix.inline(kids(vi)[0])
+                if is_last_of_list(ix, vi):
+                    return True
+                if tag(vi) == "call" and ix.call_target(vi) is not None:
+                    outs = ix.ok_paths(ix.call_target(vi))
+                    return bool(outs) and all(is_last_of_list(ix, sym.unwrap(p_.ret)) or N(ix, sym.unwrap(p_.ret)) == ("pos", ("int", 0)) for p_ in outs) \
+                        and any(is_last_of_list(ix, sym.unwrap(p_.ret)) for p_ in outs)
+                return False
+            FUND = ("idiv", ("imul", ("isub", hole("latest", latest_q), hole("checkpoint", lambda v: stored_pos_field(v, "last_updated_premium_fraction"))),
+                             hole("size", lambda v: stored_pos_field(v, "size"))), ("pos", em.cfg_leaf("decimals")))
+
+            def owed_forms(n_):
+                """normal forms n_ can take once pure helper calls in it are replaced by their outcomes"""
+                if n_[0] == "leaf" and isinstance(n_[1], int) and tag(ix.inline(n_[1])) == "call" and ix.call_target(ix.inline(n_[1])) is not None:
+                    outs = ix.outcomes(ix.inline(n_[1])) or []
+                    return [N(ix, ret) for (_cp, ret, _m) in outs]
+                return [n_]
+            for p in ix.ok_paths(g):
+                mg = N(ix, sym.field(sym.unwrap(p.ret), "margin"))
+                if mg == ("int", 0):
+                    seen6.add("zero")
+                    continue
+                if not (mg[0] == "mag" and mg[1][0] in ("iadd", "isub")):
+                    bad6 = bad6 or "margin is %s" % norm.show(mg)[:200]
+                    continue
+                opn, a_, b_ = mg[1]
+                if not (a_[0] == "pos" and a_[1][0] == "leaf" and stored_pos_field(a_[1][1], "margin")):
+                    a_, b_ = b_, a_
+                    if opn == "isub" or not (a_[0] == "pos" and a_[1][0] == "leaf" and stored_pos_field(a_[1][1], "margin")):
+                        bad6 = bad6 or "margin is %s" % norm.show(mg)[:200]
+                        continue
+                okf = True
+                nontrivial = False
+                for form in owed_forms(b_):
+                    if form in (("pos", ("int", 0)), ("int", 0)):
+                        continue
+                    nontrivial = True
+                    # margin + (-owed)  or  margin - owed
+                    if opn == "iadd":
+                        okf = okf and form[0] == "inv" and match(FUND, form[1]) is not None
+                    else:
+                        okf = okf and match(FUND, form) is not None
+                if not okf:
+                    bad6 = bad6 or "the funding term of the margin is %s (expected -(latest - checkpoint) * size / decimals)" % "; ".join(norm.show(f_)[:160] for f_ in owed_forms(b_))
+                seen6.add("net" if nontrivial else "flat")
+            ctx.inst("R05.6", "margin-net-of-funding:%s" % short_fn(g), bad6 is None and "net" in seen6, g.where(),
+                     bad6 or "margin = max(0, stored margin - (latest - checkpoint) * size / decimals) (%s)" % sorted(seen6))
